@@ -16,6 +16,9 @@ Spec (from the property statement and docs/hessian.md, docs/vectors.md; nothing 
   saved matrix        H[(i,p),(j,q)] = -[r_ij <= rc] B(D(i,j))[p,q] / sqrt(m_i m_j)            (i != j)
                       H[(i,p),(i,q)] = sum_{j != i} [r_ij <= rc] B(D(i,j))[p,q] / m_i            (= M^-1/2 d2U M^-1/2)
   symmetric, annihilates sqrt(m) e_q, omega = sqrt(lambda) for lambda > 0, PR = (sum |e_i|^2)^2 / (N sum |e_i|^4) in (0,1].
+
+The last line is derived, in the unit of diagonalize_hessian, from the entry-wise form of the saved matrix and nothing else about the code
+(clause families symmetric:*, translations:*, PR-range:*; see Diagonalize._structure and Diagonalize._pr_range).
 """
 import z3
 
@@ -31,28 +34,37 @@ VMOD = "PyMatterSim.static.vector"
 NOT_DECIDED = [
     "numerical conditioning / accuracy of np.linalg.eigh (A1: floats are reals; eigh is an assumed relational contract)",
     "'confirmed by finite differences' is replaced by the symbolic second derivative (pyvc.diff); finite differences are used only in the replay harness",
-    "the last composition step of the symmetry and translation clauses (from the proved entry-wise form of the saved matrix + the proved lemmas "
-    "B(-x)^T = B(x), D(j,i) = -D(i,j), the vanishing translation summand, to 'H = H^T' and 'H M^1/2 e_q = 0' over all neighbours) is an argument "
-    "on paper (substitution of equals and linearity of the neighbour sum), not one machine-checked query; symmetric parameter matrices are its hypothesis",
-    "participation ratios of the *saved eigenvectors* in (0,1]: proved for every non-zero field (unit participation_ratio); that the reshaped eigenvector "
-    "is non-zero needs the regrouping sum_{a<dN} f(a) = sum_{n<N} sum_{c<d} f(nd+c) of eigh's normalisation, which is not proved here",
+    "symmetry of the saved matrix for parameter matrices that are NOT symmetric in the two types: the clause symmetric:H[...] has 'epsilons, sigmas, r_cuts "
+    "symmetric' as its hypothesis (docs/hessian.md: parameters 'for all pairs of particle type'; for an asymmetric table the code's off-diagonal block "
+    "-B_{t_i t_j} is not the second derivative of any pair energy)",
     "pairs exactly at the cutoff r_ij = rc (the documented energy is not twice differentiable there; the contract follows the inclusive test r <= rc) "
     "and, for harmonic/Hertz, pairs exactly at contact r = sigma (outside the precondition of the C12 contract)",
-    "number of species K > 2 in the assembly unit (the species case split is enumerated: K = 1, 2; the code path is the same for all K)",
+    "number of species K > 5 (the species case split is enumerated: K = 1, 2, 3 in the quick tier (3-D: K = 1, 3), d=3/K=2 and K = 4, 5 in the thorough tier "
+    "(Diagonalize.thorough_cases); the code path is the same for all K)",
+    "code that observes the insertion order of the masses dict (values(), iteration): the contract leaves the order unspecified, the engine stops (UNDECIDED) "
+    "and only the replay (descending / shuffled insertion orders, unequal masses) decides",
     "the change '<=' -> '<' of the cutoff test differs from the contract only at exact ties r_ij = rc: the obligation is then not proved and no "
     "float input shows it (UNDECIDED, exit 2), not a VIOLATION",
 ]
 TRUSTED = [
-    "assumed relational contract of np.linalg.eigh (pyvc/libext/C11.py): fresh (w, V); only the column normalisation sum_b V(b,k)^2 = 1 is given to the solver",
+    "assumed relational contract of np.linalg.eigh (pyvc/libext/C11.py): fresh (w, V); only the column normalisation sum_b V(b,k)^2 = 1 is given to the solver "
+    "(used by the clause PR-range:eigenvector-is-a-non-zero-field)",
     "differentiation rules of pyvc/diff.py including the chain rule through sqrt and through an abstract function phi (the definition of 'second derivative' here)",
     "callee contract of PairInteractions.caller is the C12 contract (triple = derivatives of the documented s(r)), used generalised to an arbitrary function "
     "of (r, epsilon, sigma, r_c, shift); callee contract of remove_pbc is the C02 row spec (pbc_spec_row)",
     "written loop summaries (pyvc.loops.written_summary) are checked by init/step obligations; the induction principle over the loop counter / particle number is trusted",
+    "induction rule used by the clause families translations:row-sum, translations:constant-factor, translations:flat-column-index, PR-range:regrouping, "
+    "PR-range:induction and induction (unit participation_ratio): claim(0) and claim(n) => claim(n+1) for a fresh n, both proved with the Sigma unfold axiom "
+    "instances, give claim(N); the instance at N is handed to the final query as an assumption",
+    "a fact proved at fresh symbolic indices (i, n) is used at other index terms by substitution: at the Skolem index of Sigma-extensionality "
+    "(symmetric:diagonal-summand at (i, x)) and at the induction variable; sv.generalize (a term replaced by a fresh constant) is a sound proving step",
     "universally quantified preconditions are used by instantiation: 'every particle type is in 1..K' (per application of ptype), 'no two particles coincide "
-    "modulo the periodic lattice' (at the pair of the loop step); definitions of the named spec functions within_rc/Bdiag/Boff are revealed at the pair of the step",
+    "modulo the periodic lattice' (at the pair of the loop step); definitions of the named spec functions within_rc/Bdiag/Boff are revealed at the pair of the step "
+    "and at the pairs (i,j), (j,i), (i,n) of the structure clauses (conservative extension by definitions)",
     "generalisation pre-pass of pyvc.solve (products and reciprocals of non-numerals -> uninterpreted nl!mul / nl!inv with commutativity instances) is sound "
     "for proving only; it never produces a refutation",
-    "instances sqrt(m_a m_a) = m_a of the lemma x > 0 => sqrt(x x) = x (proved as C11:lemma:x>0=>sqrt(x.x)=x)",
+    "instances sqrt(m_a m_a) = m_a of the lemma x > 0 => sqrt(x x) = x (proved as C11:lemma:x>0=>sqrt(x.x)=x); instances, for every pair of species masses, of "
+    "C11:lemma:translation-summand:product-form; instances rint(-m_k) = -rint(m_k) of C11:lemma:rint(-a)=-rint(a) as rewrites of the ring normaliser",
     "pandas: DataFrame(dict).to_csv writes the columns in insertion order (pyvc/pandas_model.py)",
 ]
 
@@ -291,6 +303,44 @@ def pr_spec(vec, N, d):
     return sv.div(sv.mul(S1, S1), sv.mul(sv.to_real(N), S2))
 
 
+def cauchy_schwarz_clauses(vec, N, d, prefix="", tag="", opts=None):
+    """(sum_t a_t)^2 <= N sum_t a_t^2 for a_t = |e_t|^2 >= 0 of the (N, d) field `vec`, by induction over the particle number:
+      Q(n, c): sum_{t<n} a_t^2 - 2 c sum_{t<n} a_t + n c^2 >= 0     (base n = 0, step n -> n+1: adds (a_n - c)^2)
+    and the instance c = S1(N)/N.  Yields (name, goal, opts) obligations and finally (None, S1^2 <= N S2, None): the fact that the
+    induction principle (trusted rule) gives from base + step + instance.
+    The step is split so that no query depends on the non-linear solver's luck (it used to flip between 0.3 s and a time-out):
+      unfold:  S1(n+1) = S1(n) + a_n,  S2(n+1) = S2(n) + a_n^2         (Sigma unfold axiom instances, a_n written out)
+      step:    from these two equations, (a_n - c)^2 >= 0 (lemma:square-nonnegative) and Q(n, c): Q(n+1, c) - with a_n and the four
+               sums generalised to arbitrary reals (linear arithmetic over the monomials)."""
+    opts = dict(opts or {})
+    n, c = sv.integer("n_ind" + tag), sv.real("c_ind" + tag)
+
+    def Qv(k, x1, x2, cc):
+        return sv.cmp(">=", sv.add(sv.sub(x2, sv.mul(sv.mul(2, cc), x1)), sv.mul(sv.to_real(k), sv.mul(cc, cc))), 0)
+
+    def Q(k, cc):
+        S1, S2, _ = pr_sums(vec, N, d, n=k)
+        return Qv(k, S1, S2, cc)
+    yield prefix + "induction:Q(0,c)", Q(0, c), dict(opts)
+    n1 = sv.add(n, 1)
+    S1n, S2n, a = pr_sums(vec, N, d, n=n)
+    S1m, S2m, _ = pr_sums(vec, N, d, n=n1)
+    a_n = a(n)
+    unfold = sv.and_(sv.cmp("==", S1m, sv.add(S1n, a_n)), sv.cmp("==", S2m, sv.add(S2n, sv.mul(a_n, a_n))))
+    yield prefix + "induction:unfold:S1(n+1)=S1(n)+a_n,S2(n+1)=S2(n)+a_n^2", sv.implies(n >= 0, unfold), dict(opts)
+    sq = sv.cmp(">=", sv.mul(sv.sub(a_n, c), sv.sub(a_n, c)), 0)
+    step = sv.implies(sv.and_(n >= 0, unfold, sq, Qv(n, S1n, S2n, c)), Qv(n1, S1m, S2m, c))
+    yield prefix + "induction:Q(n,c)=>Q(n+1,c)", sv.generalize(step, [a_n, S1n, S2n, S1m, S2m])[0], dict(opts)
+    xg = sv.real("x_gen" + tag)
+    yield prefix + "lemma:square-nonnegative", sv.cmp(">=", sv.mul(xg, xg), 0), dict(opts)
+    S1, S2, _ = pr_sums(vec, N, d)
+    Nr = sv.to_real(N)
+    cs = sv.cmp("<=", sv.mul(S1, S1), sv.mul(Nr, S2))
+    inst = Q(N, sv.div(S1, Nr))               # the instance c = S1/N of the induction's conclusion
+    yield prefix + "cauchy-schwarz-from-Q(N,S1/N)", sv.generalize(sv.implies(sv.and_(inst, N >= 1), cs), [S1, S2])[0], dict(opts)
+    yield None, cs, None
+
+
 class ParticipationRatio(Unit):
     """PR = (sum_i |e_i|^2)^2 / (N sum_i |e_i|^4) (docs/vectors.md); in (0, 1] for a non-zero field.
     The bound is Cauchy-Schwarz (sum a)^2 <= N sum a^2, proved by induction over the particle number:
@@ -314,33 +364,23 @@ class ParticipationRatio(Unit):
         return [V], {}, dict(d=d, N=N, V=V, vec=V.reader())
 
     def clause_names(self, case):
-        return ["PR=(sum|e|^2)^2/(N.sum|e|^4)", "induction:Q(0,c)", "induction:Q(n,c)=>Q(n+1,c)", "lemma:square-nonnegative", "cauchy-schwarz-from-Q(N,S1/N)",
+        return ["PR=(sum|e|^2)^2/(N.sum|e|^4)", "induction:Q(0,c)", "induction:unfold:S1(n+1)=S1(n)+a_n,S2(n+1)=S2(n)+a_n^2", "induction:Q(n,c)=>Q(n+1,c)",
+                "lemma:square-nonnegative", "cauchy-schwarz-from-Q(N,S1/N)",
                 "0<PR<=1", "div0:N.sum|e|^4!=0", "frame-input-not-written"]
 
     def ensures(self, ctx, case, inp, out):
         d, N, vec = inp["d"], inp["N"], inp["vec"]
         v = out.value
         yield "PR=(sum|e|^2)^2/(N.sum|e|^4)", sv.cmp("==", v, pr_spec(vec, N, d))
-        # induction over n for Q(n, c)
-        n, c = sv.integer("n_ind"), sv.real("c_ind")
-
-        def Q(k, cc):
-            S1, S2, _ = pr_sums(vec, N, d, n=k)
-            return sv.cmp(">=", sv.add(sv.sub(S2, sv.mul(sv.mul(2, cc), S1)), sv.mul(sv.to_real(k), sv.mul(cc, cc))), 0)
-        yield "induction:Q(0,c)", Q(0, c)
-        # the step adds (a_n - c)^2 >= 0: the square is given to the solver as an (own, trivially true) fact so that the step is
-        # linear arithmetic over the monomials and does not depend on the non-linear solver's variable order
-        a_n = pr_sums(vec, N, d)[2](n)
-        sq = sv.cmp(">=", sv.mul(sv.sub(a_n, c), sv.sub(a_n, c)), 0)
-        yield "induction:Q(n,c)=>Q(n+1,c)", sv.implies(sv.and_(n >= 0, Q(n, c)), Q(sv.add(n, 1), c)), {"assume": [sq]}
-        xg = sv.real("x_gen")
-        yield "lemma:square-nonnegative", sv.cmp(">=", sv.mul(xg, xg), 0)
+        # Cauchy-Schwarz (S1^2 <= N S2) by induction over n for Q(n, c)
+        cs = None
+        for name, goal, opts in cauchy_schwarz_clauses(vec, N, d):
+            if name is None:
+                cs = goal
+            else:
+                yield name, goal, opts
         S1, S2, _ = pr_sums(vec, N, d)
-        g1, g2 = sv.real("S1_gen"), sv.real("S2_gen")
         Nr = sv.to_real(N)
-        cs = sv.cmp("<=", sv.mul(S1, S1), sv.mul(Nr, S2))
-        inst = Q(N, sv.div(S1, Nr))               # the instance c = S1/N of the induction's conclusion
-        yield "cauchy-schwarz-from-Q(N,S1/N)", sv.generalize(sv.implies(sv.and_(inst, N >= 1), cs), [S1, S2])[0]
         # the induction principle over n (base + step above) gives Q(N, c) for every c; its instance is assumed here
         yield "0<PR<=1", sv.and_(sv.cmp(">", v, 0), sv.cmp("<=", v, 1)), {"assume": [cs]}
         yield "div0:N.sum|e|^4!=0", sv.cmp("!=", sv.mul(S2, Nr), 0), {"assume": [cs]}
@@ -441,7 +481,9 @@ class Sys:
         for arr_, nme in ((self.eps, "epsilons"), (self.sig, "sigmas"), (self.rc, "r_cuts")):
             ctx.state.origin[arr_.sid] = nme
         self.shift = ctx.bool("shiftpotential")
-        self.masses = ctx.pydict({a + 1: self.m[a] for a in range(K)})
+        # masses: a mapping type id -> mass.  Its insertion order is an input the contract does not fix ({2: .., 1: ..} is a valid argument):
+        # a lookup by key is order-independent; code that uses the dict positionally (values(), iteration) stops the engine (replay decides)
+        self.masses = ctx.pydict({a + 1: self.m[a] for a in range(K)}, unordered=True)
         z = A.zeros((d,), "float")
         self.snapshot = ctx.obj(RU, "SingleSnapshot", dict(timestep=0, nparticle=N, particle_type=self.ptype, positions=self.pos,
                                                            boxlength=z, boxbounds=z, realbounds=z, hmatrix=self.H))
@@ -511,6 +553,34 @@ class Sys:
                 out.append(sv.zb(sv.cmp("==", self.BO(i, j, p, q), sv.mul(Bij[p][q], self.w_off(i, j)))))
         return out
 
+    # ---- the same definitions one by one (the structure clauses reveal only the ones they need)
+    def def_within(self, i, j):
+        return self.F_WITHIN(sv.znum(i), sv.znum(j)) == sv.zb(self.within(i, j))
+
+    def bd_def(self, i, j, p, q):
+        """definiens of Bdiag(i, j, p, q)"""
+        return sv.mul(self.block(i, j, "ii")[p][q], self.w_diag(i))
+
+    def bo_def(self, i, j, p, q):
+        """definiens of Boff(i, j, p, q)"""
+        return sv.mul(self.block(i, j, "ij")[p][q], self.w_off(i, j))
+
+    def frac(self, i, j):
+        """fractional coordinates (r_i - r_j) H^-1 (the argument of rint in the contract of remove_pbc)"""
+        from contracts import C02
+        row = [sv.sub(self.pos.get((i, c)), self.pos.get((j, c))) for c in range(self.d)]
+        return C02._vecmat(row, self.G, self.d)
+
+    def sqrt_mass(self, i):
+        """sqrt(m_i): component of the mass-weighted uniform translation M^1/2 e_q at particle i"""
+        return A._pick([sv.sqrt(x) for x in self.m], self.ty(i))
+
+    def symmetric_params(self):
+        """the pair parameters are parameters of unordered type pairs (docs/hessian.md: 'for all pairs of particle type')"""
+        K = self.K
+        return sv.and_(*[sv.cmp("==", tab[a][b], tab[b][a]) for tab in (self.eps_t, self.sig_t, self.rc_t) for a in range(K) for b in range(a)]) \
+            if K > 1 else True
+
     def sqrt_mm(self):
         """instances sqrt(m_a m_a) = m_a of the lemma `x > 0 => sqrt(x x) = x` (proved once, extra_checks)"""
         return [sv.zb(sv.cmp("==", sv.sqrt(sv.mul(x, x)), x)) for x in self.m]
@@ -523,12 +593,23 @@ class Sys:
     def off_entry(self, i, j, p, q):
         return self.BO(i, j, p, q)
 
+    def entry(self, i, p, j, q):
+        """component (p, q) of block (i, j) of M^-1/2 d2U M^-1/2"""
+        return sv.ite(sv.cmp("==", i, j), lambda: self.diag_sum(i, p, q),
+                      lambda: sv.ite(self.WITHIN(i, j), lambda: self.off_entry(i, j, p, q), sv.to_frac(0.0)))
+
     def hessian_spec(self, a, b):
         """entry (a, b) of M^-1/2 d2U M^-1/2, a = i d + p, b = j d + q"""
         d = self.d
-        i, p, j, q = sv.floordiv(a, d), sv.mod(a, d), sv.floordiv(b, d), sv.mod(b, d)
-        return sv.ite(sv.cmp("==", i, j), lambda: self.diag_sum(i, p, q),
-                      lambda: sv.ite(self.WITHIN(i, j), lambda: self.off_entry(i, j, p, q), sv.to_frac(0.0)))
+        return self.entry(sv.floordiv(a, d), sv.mod(a, d), sv.floordiv(b, d), sv.mod(b, d))
+
+
+def translation_summand(X, Y, g, h, mi, mj):
+    """X = g (1/m_i), Y = h (1/sqrt(m_i m_j)), h = -g  =>  X sqrt(m_i) + Y sqrt(m_j) = 0: the contribution of the pair (i, j) to row i of
+    H applied to M^1/2 e_q vanishes (X = Bdiag, Y = Boff in the product form of their definitions, g = B[p][q], h = d2u/da_p db_q)"""
+    one = sv.to_frac(1.0)
+    hyp = sv.and_(sv.cmp("==", X, sv.mul(g, sv.div(one, mi))), sv.cmp("==", Y, sv.mul(h, sv.div(one, sv.sqrt(sv.mul(mi, mj))))), sv.cmp("==", h, sv.neg(g)))
+    return sv.implies(hyp, sv.cmp("==", sv.add(sv.mul(X, sv.sqrt(mi)), sv.mul(Y, sv.sqrt(mj))), 0))
 
 
 def _find_loops(qualname="HessianMatrix.diagonalize_hessian"):
@@ -554,9 +635,12 @@ class Diagonalize(Unit):
     solver_opts = {"abstract_nl": True}
 
     def cases(self):
-        # K = number of species (masses / parameter matrices K x K); d=3 with K=2 is also proved (about 3 min on one core) and
-        # can be enabled here; the quick tier keeps the species case split in 2-D, where the mass logic is the same code
-        return ["d=2/K=2", "d=3/K=1", "d=2/K=1/default-outputfile"]
+        # K = number of species (masses / parameter matrices K x K).  Measured (one core, idle): d=2: K=2 25 s, K=3 30 s; d=3: K=1 45 s, K=3 60 s
+        return ["d=2/K=2", "d=2/K=3", "d=3/K=1", "d=3/K=3", "d=2/K=1/default-outputfile"]
+
+    def thorough_cases(self):
+        # the remaining species counts the library enumerates elsewhere (up to five), same contract: only run with --tier thorough
+        return ["d=3/K=2", "d=2/K=4", "d=3/K=4", "d=2/K=5", "d=3/K=5"]
 
     # ------------------------------------------------------------------------------------------ callee contracts
     def _summaries(self, S):
@@ -683,7 +767,7 @@ class Diagonalize(Unit):
         return ["assembly:diagonal-block=sum_j-B(i,j)/m_i", "assembly:off-diagonal-block=-B(i,j)/sqrt(m_i.m_j)", "assembly:other-rows-untouched",
                 "saved-matrix=M^-1/2.d2U.M^-1/2", "files:hessian-iff-savehessian,evecs-iff-saveevecs,csv-always", "eigh-is-applied-to-the-saved-matrix",
                 "saved-evecs=eigenvectors", "omega=sqrt(eigenvalue)-if-positive", "PR=participation-ratio-of-eigenvector-as-(N,d)-field",
-                "frame-inputs-not-written"]
+                "frame-inputs-not-written"] + self.STRUCTURE + self.PR_RANGE
 
     def ensures(self, ctx, case, inp, out):
         S, d = inp["S"], inp["d"]
@@ -719,6 +803,17 @@ class Diagonalize(Unit):
             yield "saved-matrix=M^-1/2.d2U.M^-1/2", True
         _, arg, evals, evecs, w, V, _ = eg[0]
         yield "eigh-is-applied-to-the-saved-matrix", is_spec(arg)
+        # symmetry / zero modes: consequences of the entry-wise form only.  The four returning paths (savehessian x saveevecs) hand the
+        # same matrix term to np.save / eigh: the clauses are generated on the first path, the other paths check that their matrix is
+        # literally the same term (the path-specific decisions share no symbol with these goals)
+        Mx = hs[0][2] if hs else arg
+        sig = [sv.znum(Mx.get((a, b)))]
+        first = inp.setdefault("_structure_sig", sig)
+        if first is sig or not all(x.eq(y) for x, y in zip(first, sig)):
+            yield from self._structure(ctx, S, d, Mx)
+        else:
+            for nm in self.STRUCTURE:
+                yield nm, True
         if es:
             E = es[0][2]
             ok = isinstance(E, A.Arr) and E.ndim == 2 and A.dim_eq_syntactic(E.shape[0], n) and A.dim_eq_syntactic(E.shape[1], n)
@@ -731,6 +826,8 @@ class Diagonalize(Unit):
         if not ok:
             yield "omega=sqrt(eigenvalue)-if-positive", False
             yield "PR=participation-ratio-of-eigenvector-as-(N,d)-field", False
+            for nm in self.PR_RANGE:
+                yield nm, False
             return
         k = ctx.int("k")
         kin = sv.and_(k >= 0, sv.cmp("<", k, n))
@@ -738,6 +835,214 @@ class Diagonalize(Unit):
         yield "omega=sqrt(eigenvalue)-if-positive", sv.implies(kin, sv.cmp("==", snap["omega"].get((k,)), sv.ite(sv.cmp(">", lam, 0), lambda: sv.sqrt(lam), lam)))
         vec = lambda idx: evecs.get((sv.add(sv.mul(idx[0], d), idx[1]), k))
         yield "PR=participation-ratio-of-eigenvector-as-(N,d)-field", sv.implies(kin, sv.cmp("==", snap["PR"].get((k,)), pr_spec(vec, S.N, d)))
+        sig = [sv.znum(snap["PR"].get((k,))), sv.znum(evecs.get((a, k)))]          # as above: once for the paths that write the same column
+        first = inp.setdefault("_pr_sig", sig)
+        if first is sig or not all(x.eq(y) for x, y in zip(first, sig)):
+            yield from self._pr_range(ctx, S, d, n, k, kin, evecs, vec, snap["PR"].get((k,)))
+        else:
+            for nm in self.PR_RANGE:
+                yield nm, True
+
+    PR_RANGE = ["PR-range:regrouping:induction-base(n=0)", "PR-range:regrouping:induction-step(n->n+1)",
+                "PR-range:eigenvector-is-a-non-zero-field:sum_n|e_n|^2=1", "PR-range:induction:Q(0,c)",
+                "PR-range:induction:unfold:S1(n+1)=S1(n)+a_n,S2(n+1)=S2(n)+a_n^2", "PR-range:induction:Q(n,c)=>Q(n+1,c)",
+                "PR-range:lemma:square-nonnegative", "PR-range:cauchy-schwarz-from-Q(N,S1/N)", "PR-range:0<PR<=1-for-every-saved-mode"]
+
+    def _pr_range(self, ctx, S, d, dN, k, kin, evecs, vec, pr_k):
+        """the participation ratio written for mode k lies in (0, 1]: the eigenvector (column k of eigh's V, normalised: assumed
+        contract of eigh) reshaped row-major to (N, d) is a non-zero field, by the regrouping
+            G(n):  sum_{b < d n} V(b,k)^2  =  sum_{t < n} sum_{c < d} V(t d + c, k)^2        (induction over n: base, step)
+        at n = N, and Cauchy-Schwarz for this field (the same induction as in the unit participation_ratio, on the eigenvector)."""
+        N = S.N
+        m = ctx.int("m_s")
+
+        def flat(hi):
+            return Sum(0, hi, lambda b: sv.mul(evecs.get((b, k)), evecs.get((b, k))))
+
+        def G(h):
+            return sv.cmp("==", flat(sv.mul(d, h)), pr_sums(vec, N, d, n=h)[0])
+        deep = {"solver_opts": dict(self.solver_opts or {}, rounds=d + 1, unfold_deep=True)}
+        yield "PR-range:regrouping:induction-base(n=0)", G(0)
+        yield "PR-range:regrouping:induction-step(n->n+1)", sv.implies(sv.and_(m >= 0, G(m)), G(sv.add(m, 1))), deep
+        S1 = pr_sums(vec, N, d)[0]
+        unit_norm = sv.implies(kin, sv.cmp("==", S1, 1))
+        # the induction principle (base + step above) gives G(N); eigh's normalisation sum_{b < dN} V(b,k)^2 = 1 is instantiated for column k
+        yield "PR-range:eigenvector-is-a-non-zero-field:sum_n|e_n|^2=1", unit_norm, {"assume": [G(N)]}
+        # Cauchy-Schwarz for this field (a_t = |e_t|^2 = sum_c V(t d + c, k)^2): the same induction as in the unit participation_ratio, on the eigenvector
+        cs = None
+        for name, goal, opts in cauchy_schwarz_clauses(vec, N, d, prefix="PR-range:", tag="_ev", opts={"solver_opts": {}, "timeout": 20}):
+            if name is None:
+                cs = goal
+            else:
+                yield name, goal, opts
+        yield "PR-range:0<PR<=1-for-every-saved-mode", sv.implies(kin, sv.and_(sv.cmp(">", pr_k, 0), sv.cmp("<=", pr_k, 1))), {"assume": [cs, unit_norm]}
+
+    # ------------------------------------------------------------------------------------------ symmetry, translations
+    STRUCTURE = ["symmetric:minimum-image-odd:D(j,i)=-D(i,j)",
+                 "symmetric:distance:|D(j,i)|=|D(i,j)|",
+                 "symmetric:neighbour-relation:within(i,j)=within(j,i)",
+                 "symmetric:pair-parameters-and-weight:(t_j,t_i)=(t_i,t_j)",
+                 "symmetric:pair-block:B(D(j,i))^T/sqrt(m_j.m_i)=B(D(i,j))/sqrt(m_i.m_j)",
+                 "symmetric:off-diagonal-entry:Boff(j,i,q,p)=Boff(i,j,p,q)",
+                 "symmetric:diagonal-summand:B(D(i,t))[p][q]=B(D(i,t))[q][p]",
+                 "symmetric:diagonal-summand:Bdiag(i,t,p,q)=Bdiag(i,t,q,p)",
+                 "symmetric:H[i.d+p,j.d+q]=H[j.d+q,i.d+p]",
+                 "translations:cross-derivative:d2u/da.db=-d2u/da.da-at-D(i,n)",
+                 "translations:summand:(B/m_i).sqrt(m_i)-(B/sqrt(m_i.m_n)).sqrt(m_n)=0",
+                 "translations:no-self-term:within(i,n)=>n!=i",
+                 "translations:row-sum:induction-base(n=0)",
+                 "translations:row-sum:induction-step(n->n+1)",
+                 "translations:constant-factor:induction-base(n=0)",
+                 "translations:constant-factor:induction-step(n->n+1)",
+                 "translations:sum_j-H[i.d+p,j.d+q].sqrt(m_j)=0",
+                 "translations:flat-column-index:induction-base(n=0)",
+                 "translations:flat-column-index:induction-step(n->n+1)",
+                 "translations:(H.M^1/2.e_q)[i.d+p]=0"]
+
+    def _structure(self, ctx, S, d, Mx):
+        """Symmetry and zero modes of the matrix `Mx` that is saved / handed to eigh, derived from its entry-wise form (the value the
+        assembly obligations establish) and nothing else about the code:
+          (a) Mx[i d + p, j d + q] = Mx[j d + q, i d + p]                      (pair parameters of unordered type pairs)
+          (b) sum_{j<N} Mx[i d + p, j d + q] sqrt(m_j) = 0                     (any mask; the statement asks for full periodicity)
+        at symbolic particles i, j and components p, q.  Every fact about the named spec functions within_rc / Bdiag / Boff used in
+        the two final queries is its own obligation, proved from their definitions (revealed at the instance), the contract of
+        remove_pbc (minimum image odd: rint(-a) = -rint(a), lemma) and the differentiation lemmas; sums over the neighbours are
+        handled by Sigma-extensionality ((a), diagonal block) and by two inductions over the upper limit ((b))."""
+        N, K = S.N, S.K
+        i, j, n = ctx.int("i_s"), ctx.int("j_s"), ctx.int("n_s")
+        p, q = ctx.int("p_s"), ctx.int("q_s")
+        comps = [(a, b) for a in range(d) for b in range(d)]
+        zero = sv.to_frac(0.0)
+
+        def blk(i_, p_, j_, q_):
+            return Mx.get((sv.add(sv.mul(i_, d), p_), sv.add(sv.mul(j_, d), q_)))
+
+        def rng(x, hi):
+            return sv.and_(sv.cmp(">=", x, 0), sv.cmp("<", x, hi))
+
+        def Z(x):
+            return sv.zb(x) if isinstance(x, sv.SV) else (z3.BoolVal(x) if isinstance(x, bool) else x)
+
+        def conj(xs):
+            xs = [Z(x) for x in xs]
+            return z3.And(*xs) if len(xs) != 1 else xs[0]
+        SYM = Z(S.symmetric_params())
+        # ---------------------------------------------------------------- (a) symmetry
+        Dij, Dji = S.Dvec(i, j), S.Dvec(j, i)
+        nDij = [sv.neg(x) for x in Dij]
+        mij = S.frac(i, j)
+        rw = [(sv.rint(sv.neg(mij[k])), sv.neg(sv.rint(mij[k]))) for k in range(d)]      # instances of lemma:rint(-a)=-rint(a)
+        odd = conj([sv.znum(Dji[c]) == sv.znum(nDij[c]) for c in range(d)])
+        yield "symmetric:minimum-image-odd:D(j,i)=-D(i,j)", odd, {"ring_only": True, "rewrites": rw}
+        same_r = sv.znum(S.dist(j, i)) == sv.znum(S.dist(i, j))
+        yield "symmetric:distance:|D(j,i)|=|D(i,j)|", same_r, {"ring_only": True, "rewrites": rw}
+        w_sym = z3.Implies(SYM, S.F_WITHIN(i.t, j.t) == S.F_WITHIN(j.t, i.t))
+        yield ("symmetric:neighbour-relation:within(i,j)=within(j,i)",
+               sv.generalize(z3.Implies(z3.And(S.def_within(i, j), S.def_within(j, i), same_r), w_sym), [S.dist(i, j), S.dist(j, i)])[0])
+        tabs = (S.eps_t, S.sig_t, S.rc_t)
+        pairs = [(sv.znum(S.par(tab, j, i)), sv.znum(S.par(tab, i, j))) for tab in tabs] + [(sv.znum(S.w_off(j, i)), sv.znum(S.w_off(i, j)))]
+        pairs = [(a_, b_) for a_, b_ in pairs if not a_.eq(b_)]
+        par_sym = z3.Implies(SYM, conj([a_ == b_ for a_, b_ in pairs] or [True]))
+        yield "symmetric:pair-parameters-and-weight:(t_j,t_i)=(t_i,t_j)", par_sym
+        # the definiens of Boff(j,i,q,p), with the parameters of the type pair (t_i,t_j) (previous clause) and D(j,i) replaced by -D(i,j)
+        # (first clause), equals the definiens of Boff(i,j,p,q): B(-x)^T = B(x), as a ring identity for an arbitrary vector x in place of D(i,j)
+        e_ij = {c: S.bo_def(i, j, c[0], c[1]) for c in comps}
+        e_ji = {c: S.bo_def(j, i, c[1], c[0]) for c in comps}
+        to_neg = [(sv.znum(Dji[k]), sv.znum(nDij[k])) for k in range(d)]
+        r_ij, r_ji = S.dist(i, j), S.dist(j, i)
+        to_r = [(sv.znum(r_ji), sv.znum(r_ij))]                  # |D(j,i)| = |D(i,j)| (second clause)
+        e_ji_n = {c: sv.SV(z3.substitute(sv.znum(e_ji[c]), *(pairs + to_r + to_neg))) for c in comps}
+        blk_sym = conj([sv.cmp("==", e_ji_n[c], e_ij[c]) for c in comps])
+        yield "symmetric:pair-block:B(D(j,i))^T/sqrt(m_j.m_i)=B(D(i,j))/sqrt(m_i.m_j)", sv.generalize(blk_sym, [r_ij] + list(Dij))[0], {"ring_only": True}
+        bo_sym = z3.Implies(SYM, conj([sv.cmp("==", S.BO(j, i, c[1], c[0]), S.BO(i, j, c[0], c[1])) for c in comps]))
+        # Boff(j,i,q,p) = its definiens = (substitution of equals: parameters, D(j,i) = -D(i,j)) = definiens of Boff(i,j,p,q) = Boff(i,j,p,q);
+        # every substituted term is generalised to a constant, so that the query is congruence only
+        opaque = [sv.SV(x) for pr in pairs for x in pr] + [r_ji, r_ij] + list(Dji) + nDij + list(Dij)
+        for c in comps:
+            lhs, rhs = S.BO(j, i, c[1], c[0]), S.BO(i, j, c[0], c[1])
+            hyp = conj([sv.cmp("==", rhs, e_ij[c]), sv.cmp("==", lhs, e_ji[c]), par_sym, odd, same_r, sv.cmp("==", e_ji_n[c], e_ij[c])])
+            yield ("symmetric:off-diagonal-entry:Boff(j,i,q,p)=Boff(i,j,p,q)",
+                   sv.generalize(z3.Implies(hyp, z3.Implies(SYM, Z(sv.cmp("==", lhs, rhs)))), opaque)[0], {"solver_opts": {"uf_abstraction": True}})
+        up = [c for c in comps if c[0] < c[1]]
+        Din = list(S.Dvec(i, n))
+        dd = {c: S.bd_def(i, n, c[0], c[1]) for c in comps}
+        dd_sym = conj([sv.cmp("==", dd[c], dd[(c[1], c[0])]) for c in up])
+        # mixed partial derivatives commute (ring identity for an arbitrary vector in place of D(i,t))
+        yield "symmetric:diagonal-summand:B(D(i,t))[p][q]=B(D(i,t))[q][p]", sv.generalize(dd_sym, Din)[0], {"ring_only": True}
+
+        def bd_sym_at(t):
+            return conj([sv.cmp("==", S.BD(i, t, c[0], c[1]), S.BD(i, t, c[1], c[0])) for c in up])
+        defs_bd = conj([sv.cmp("==", S.BD(i, n, c[0], c[1]), dd[c]) for c in comps])
+        yield ("symmetric:diagonal-summand:Bdiag(i,t,p,q)=Bdiag(i,t,q,p)",
+               sv.generalize(z3.Implies(z3.And(defs_bd, dd_sym), bd_sym_at(n)), Din)[0])
+        inr = conj([rng(i, N), rng(j, N), rng(p, d), rng(q, d)])
+        # the three facts are used at the pair (i, j) they were proved at, and (third) at the Skolem index of Sigma-extensionality
+        yield ("symmetric:H[i.d+p,j.d+q]=H[j.d+q,i.d+p]", z3.Implies(z3.And(inr, SYM), Z(sv.cmp("==", blk(i, p, j, q), blk(j, q, i, p)))),
+               {"assume": [w_sym, bo_sym], "solver_opts": dict(self.solver_opts, pointwise=[lambda x: bd_sym_at(sv.SV(x))])})
+        # ---------------------------------------------------------------- (b) uniform translations
+        s_i = S.sqrt_mass(i)
+        Bii, Bij = S.block(i, n, "ii"), S.block(i, n, "ij")
+        cross = conj([sv.cmp("==", Bij[a][b], sv.neg(Bii[a][b])) for a, b in comps])
+        yield "translations:cross-derivative:d2u/da.db=-d2u/da.da-at-D(i,n)", sv.generalize(cross, Din)[0], {"ring_only": True}
+        # mass weights: instances (g, h) = (B, -B)[p][q], (m_i, m_j) = the masses of every type pair, of the lemma
+        #   m_i, m_j > 0, X = g (1/m_i), Y = h (1/sqrt(m_i m_j)), h = -g  =>  X sqrt(m_i) + Y sqrt(m_j) = 0     (C11:lemma:translation-summand:product-form)
+        def lemma_inst(X, Y, g, h):
+            return [sv.implies(sv.and_(S.m[a] > 0, S.m[b] > 0), translation_summand(X, Y, g, h, S.m[a], S.m[b])) for a in range(K) for b in range(K)]
+
+        def summand_zero(t, c):
+            return sv.cmp("==", sv.add(sv.mul(S.BD(i, t, c[0], c[1]), s_i), sv.mul(S.BO(i, t, c[0], c[1]), S.sqrt_mass(t))), 0)
+        goals = []
+        for c in comps:
+            g, h = Bii[c[0]][c[1]], Bij[c[0]][c[1]]
+            hyp = [sv.cmp("==", S.BD(i, n, c[0], c[1]), S.bd_def(i, n, c[0], c[1])), sv.cmp("==", S.BO(i, n, c[0], c[1]), S.bo_def(i, n, c[0], c[1])),
+                   sv.cmp("==", h, sv.neg(g))] + lemma_inst(S.BD(i, n, c[0], c[1]), S.BO(i, n, c[0], c[1]), g, h)
+            goals.append(sv.generalize(z3.Implies(conj(hyp), Z(summand_zero(n, c))), [g, h])[0])
+        yield "translations:summand:(B/m_i).sqrt(m_i)-(B/sqrt(m_i.m_n)).sqrt(m_n)=0", conj(goals)
+        no_self = z3.Implies(S.F_WITHIN(i.t, n.t), Z(sv.cmp("!=", n, i)))
+        yield "translations:no-self-term:within(i,n)=>n!=i", sv.generalize(z3.Implies(S.def_within(i, n), no_self), Din)[0]
+        # row sum up to n:  R(n):  sum_{t<n} Mx[i d+p, t d+q] sqrt(m_t) = [i<n] DS sqrt(m_i) - sum_{t<n} [within(i,t)] Bdiag(i,t,p,q) sqrt(m_i)
+        #   with DS = sum_{t<N} [within(i,t)] Bdiag(i,t,p,q) the diagonal entry; then  L(n): (sum_{t<n} [..] Bdiag) sqrt(m_i) = sum_{t<n} [..] Bdiag sqrt(m_i)
+        DS = S.diag_sum(i, p, q)
+        DSs = sv.mul(DS, s_i)
+
+        def rowsum(k):
+            return Sum(0, k, lambda t: sv.mul(blk(i, p, t, q), S.sqrt_mass(t)))
+
+        def dss(k):
+            return Sum(0, k, lambda t: sv.ite(S.WITHIN(i, t), lambda: sv.mul(S.BD(i, t, p, q), s_i), zero))
+
+        def R(k):
+            return sv.cmp("==", rowsum(k), sv.sub(sv.ite(sv.cmp("<", i, k), DSs, zero), dss(k)))
+
+        def L(k):
+            return sv.cmp("==", sv.mul(S.diag_sum(i, p, q, upto=k), s_i), dss(k))
+        n1 = sv.add(n, 1)
+        fix = conj([rng(i, N), rng(p, d), rng(q, d)])
+        # summand_zero is stated for the concrete components; p, q of the row sum are symbolic in 0..d-1 (congruence)
+        yield "translations:row-sum:induction-base(n=0)", z3.Implies(fix, Z(R(0)))
+        yield ("translations:row-sum:induction-step(n->n+1)", z3.Implies(z3.And(fix, Z(rng(n, N)), Z(R(n))), Z(R(n1))),
+               {"assume": [conj([summand_zero(n, c) for c in comps]), no_self]})
+        yield "translations:constant-factor:induction-base(n=0)", z3.Implies(fix, Z(L(0)))
+        yield "translations:constant-factor:induction-step(n->n+1)", z3.Implies(z3.And(fix, Z(sv.cmp(">=", n, 0)), Z(L(n))), Z(L(n1)))
+        # the induction principle (base + step above) gives R(N) and L(N); their instances are assumed here
+        yield ("translations:sum_j-H[i.d+p,j.d+q].sqrt(m_j)=0", z3.Implies(fix, Z(sv.cmp("==", rowsum(N), 0))),
+               {"assume": [z3.Implies(fix, Z(R(N))), z3.Implies(fix, Z(L(N)))]})
+
+        # the same as a matrix-vector product over the flat column index b = j d + c:  (H v_q)[i d + p] = 0 with
+        # v_q[b] = sqrt(m_{b div d}) if b mod d = q else 0  (= M^1/2 e_q): regrouping  F(n): sum_{b < d n} H[a,b] v_q[b] = rowsum(n), induction over n
+        def v_q(b):
+            return sv.ite(sv.cmp("==", sv.mod(b, d), q), lambda: S.sqrt_mass(sv.floordiv(b, d)), zero)
+
+        def flat(hi):
+            return Sum(0, hi, lambda b: sv.mul(Mx.get((sv.add(sv.mul(i, d), p), b)), v_q(b)))
+
+        def F(k):
+            return sv.cmp("==", flat(sv.mul(d, k)), rowsum(k))
+        deep = {"solver_opts": dict(self.solver_opts or {}, rounds=d + 1, unfold_deep=True)}
+        yield "translations:flat-column-index:induction-base(n=0)", z3.Implies(fix, Z(F(0)))
+        yield "translations:flat-column-index:induction-step(n->n+1)", z3.Implies(z3.And(fix, Z(sv.cmp(">=", n, 0)), Z(F(n))), Z(F(n1))), deep
+        yield ("translations:(H.M^1/2.e_q)[i.d+p]=0", z3.Implies(fix, Z(sv.cmp("==", flat(sv.mul(d, N)), 0))),
+               {"assume": [z3.Implies(fix, Z(F(N))), z3.Implies(fix, Z(sv.cmp("==", rowsum(N), 0)))]})
 
     def replay(self, case, clause, model, seed):
         return _replay_diag(case, clause, model, seed)
@@ -813,6 +1118,12 @@ def _replay_diag(case, clause, model, seed, trials=36):
                     masses[a_ + 1] = v
         if k % 5 == 4:
             masses = {a_ + 1: 1.0 for a_ in range(K)}      # equal masses (the case the repository's test has)
+        if K >= 2 and k % 2 == 1:
+            # the dict is a map keyed by type id: any insertion order is a valid input (descending for odd k % 4 == 1, shuffled otherwise)
+            keys = sorted(masses, reverse=True)
+            if k % 4 == 3:
+                rng.shuffle(keys)
+            masses = {key: masses[key] for key in keys}
         eps = np.zeros((K, K))
         sig = np.zeros((K, K))
         rc = np.zeros((K, K))
@@ -896,7 +1207,7 @@ def _replay_diag(case, clause, model, seed, trials=36):
                    f"masses {mvec[a_ // d]}, {mvec[b_ // d]})")
         if bad is None and np.abs(Hs - Hs.T).max() > 1e-8 * scale:
             bad = "saved matrix not symmetric"
-        if bad is None and np.all(ppp == 1):
+        if bad is None:        # clause translations:* (proved for every mask: the pair energy depends on differences r_i - r_j only)
             for q in range(d):
                 v = np.zeros(d * N)
                 v[q::d] = np.sqrt(mvec)
@@ -949,8 +1260,9 @@ UNITS = UNITS + _callee_units([('C02', None), ('C12', None)], UNITS)
 
 
 def lemmas():
-    """spec-level lemmas on fresh variables: the symmetry and translation clauses of the statement follow from the proved
-    form of the saved matrix (hessian_spec) by these identities"""
+    """spec-level lemmas on fresh variables; the symmetry and translation clauses of the unit of diagonalize_hessian use instances of
+    rint(-a) = -rint(a) (ring rewrites) and of the product form of the translation summand (one per pair of species masses); the other
+    identities are re-proved there on the terms of the saved matrix and are kept here in their generic form"""
     from contracts import C02
     x_ = sv.real("x")
     out = [("lemma:x>0=>sqrt(x.x)=x", sv.implies(x_ > 0, sv.cmp("==", sv.sqrt(sv.mul(x_, x_)), x_)), {})]
@@ -980,6 +1292,9 @@ def lemmas():
     out.append(("lemma:translation-summand:(b/m_i).sqrt(m_i)-(b/sqrt(m_i.m_j)).sqrt(m_j)=0",
                 sv.implies(sv.and_(mi > 0, mj > 0),
                            sv.cmp("==", sv.add(sv.mul(sv.div(b_, mi), sv.sqrt(mi)), sv.mul(sv.div(sv.neg(b_), sv.sqrt(sv.mul(mi, mj))), sv.sqrt(mj))), 0)), {}))
+    g_, h_, X_, Y_ = sv.real("g"), sv.real("h"), sv.real("X"), sv.real("Y")
+    out.append(("lemma:translation-summand:product-form:X=g.(1/m_i),Y=h.(1/sqrt(m_i.m_j)),h=-g=>X.sqrt(m_i)+Y.sqrt(m_j)=0",
+                sv.implies(sv.and_(mi > 0, mj > 0), translation_summand(X_, Y_, g_, h_, mi, mj)), {}))
     return out
 
 
@@ -992,6 +1307,6 @@ def extra_checks(tier, seed, repo):
 
 
 MANIFEST = {
-    "text": "For d in {2,3}, symbolic particle number N, symbolic positions, any non-singular cell, any periodicity mask in {0,1}^d, K in {1,2} species with arbitrary positive masses and arbitrary K x K parameter matrices, both shift settings and every potential selectable through PairInteractions.caller: (1) HessianMatrix.pair_matrix returns d2 phi(|a-b|)/da.da and d2 phi(|a-b|)/da.db (= minus the former) with phi' = s1 - s1rc, phi'' = s2, the derivatives being produced by symbolic differentiation of phi(sqrt(sum (a_k-b_k)^2)); the block is symmetric; (2) in HessianMatrix.diagonalize_hessian every entry of the matrix that is saved, and that is passed to eigh, equals the entry of M^-1/2 d2U M^-1/2: off-diagonal block -[r_ij <= rc] B(D(i,j))/sqrt(m_i m_j), diagonal block sum_j [r_ij <= rc] B(D(i,j))/m_i, with D the minimum image of C02 and the pair triple of C12 evaluated at (r_ij, eps, sigma, rc of the two types, shift) (both particle loops by written summaries with init/step obligations); which files are written, saved eigenvectors = eigh output, omega = sqrt(lambda) for lambda > 0 else lambda, PR column = participation ratio of the eigenvector reshaped to (N, d); inputs not written; (3) participation_ratio = (sum|e|^2)^2/(N sum|e|^4) and lies in (0,1] for every non-zero field (Cauchy-Schwarz by induction over N); (4) lemmas for the symmetry and translation clauses: B(-x)^T = B(x), minimum image odd, translation summand vanishes.",
-    "note": "floats as reals (A1); np.linalg.eigh assumed (relational); callee contracts of caller (C12, generalised) and remove_pbc (C02); no-coincident-particles and types-in-1..K as preconditions; the composition of the symmetry/translation lemmas over the neighbour sum is on paper; K > 2 not enumerated; on the unfixed repository the obligation assembly:diagonal-block fails (diagonal block weighted 1/sqrt(m_i m_j) instead of 1/m_i) - see design_notes/C11.md, fix design_notes/C11.fix-1.diff",
+    "text": "For d in {2,3}, symbolic particle number N, symbolic positions, any non-singular cell, any periodicity mask in {0,1}^d, K in {1,2,3} species (quick tier: K = 1,2,3 in 2-D, K = 1,3 in 3-D; thorough tier adds d=3/K=2 and K = 4, 5 in both dimensions) with arbitrary positive masses given as a map type id -> mass in any insertion order and arbitrary K x K parameter matrices, both shift settings and every potential selectable through PairInteractions.caller: (1) HessianMatrix.pair_matrix returns d2 phi(|a-b|)/da.da and d2 phi(|a-b|)/da.db (= minus the former) with phi' = s1 - s1rc, phi'' = s2, the derivatives being produced by symbolic differentiation of phi(sqrt(sum (a_k-b_k)^2)); the block is symmetric; (2) in HessianMatrix.diagonalize_hessian every entry of the matrix that is saved, and that is passed to eigh, equals the entry of M^-1/2 d2U M^-1/2: off-diagonal block -[r_ij <= rc] B(D(i,j))/sqrt(m_i m_j), diagonal block sum_j [r_ij <= rc] B(D(i,j))/m_i, with D the minimum image of C02 and the pair triple of C12 evaluated at (r_ij, eps, sigma, rc of the two types, shift) (both particle loops by written summaries with init/step obligations); which files are written, saved eigenvectors = eigh output, omega = sqrt(lambda) for lambda > 0 else lambda, PR column = participation ratio of the eigenvector reshaped to (N, d); inputs not written; (3) from that entry-wise form alone, at symbolic particles i, j and components p, q: the saved matrix is symmetric, H[i d+p, j d+q] = H[j d+q, i d+p], when the parameter matrices are symmetric in the two types (minimum image odd, |D(j,i)| = |D(i,j)|, symmetric neighbour relation, B(-x)^T = B(x), mixed partials commute, Sigma-extensionality for the diagonal block), and every row annihilates the mass-weighted uniform translations, sum_j H[i d+p, j d+q] sqrt(m_j) = 0, also in the form (H M^1/2 e_q)[i d+p] = 0 over the flat column index, for every mask (pair summand (B/m_i) sqrt(m_i) - (B/sqrt(m_i m_j)) sqrt(m_j) = 0, split of the row sum at j = i and the constant factor sqrt(m_i) by two inductions over the upper limit, regrouping of the flat index by a third); (4) participation_ratio = (sum|e|^2)^2/(N sum|e|^4) and lies in (0,1] for every non-zero field (Cauchy-Schwarz by induction over N); the PR written for every mode lies in (0,1]: the reshaped eigenvector is a non-zero field by eigh's normalisation and the regrouping sum_{b<dN} f(b) = sum_{n<N} sum_{c<d} f(n d+c) (induction, base + step), Cauchy-Schwarz for that field by induction.",
+    "note": "floats as reals (A1); np.linalg.eigh assumed (relational; its column normalisation is used for the PR range); callee contracts of caller (C12, generalised) and remove_pbc (C02); no-coincident-particles and types-in-1..K as preconditions; symmetric parameter matrices are the hypothesis of the symmetry clause only; the induction principle and the instantiation of facts proved at fresh indices are the trusted rules (TRUSTED); K > 5 is not enumerated (K = 4, 5 and d=3/K=2 only in the thorough tier); code that uses the masses dict positionally is an engine limit decided by the replay; on the repository before the fix d593b58 the obligation assembly:diagonal-block fails (diagonal block weighted 1/sqrt(m_i m_j) instead of 1/m_i) - see design_notes/C11.md, fix design_notes/C11.fix-1.diff",
 }
